@@ -305,7 +305,8 @@ func c11TwoProcessUpgrade(run *Run, dir, bin string) {
 				p := &reqPlan{Up: 20}
 				c.do(id, p, ms)
 				record(st, p.OK, "no reply on "+map[bool]string{true: "the existing", false: "a new"}[persistent]+" connection")
-				if !p.OK || !persistent {
+				// a well-behaved client leaves a connection the server has announced it will close (Connection: close / GOAWAY)
+				if !p.OK || !persistent || c.goneAway() != "" {
 					c.close()
 					c = nil
 					if persistent {
